@@ -327,7 +327,14 @@ def _time_information(case, mon, tmp):
         tm.write_time_information(tmp / "times" / "times.json")
         times.append(t)
         dts.append(dt)
-    tm2 = pp.TimeManager([0.0, 100.0], 1.0, constant_dt=True)
+    if rng.random() < 0.5:
+        tm2 = pp.TimeManager([0.0, 100.0], 1.0, constant_dt=True)
+    else:
+        # restart with adaptive stepping: the stored dt of a step (possibly shortened below
+        # dt_min to land on a scheduled time, or written under other bounds) is restored
+        # as written
+        tm2 = pp.TimeManager([0.0, 100.0], 1.0, dt_min_max=(0.5, 2.0))
+        mon.count("time_information_loaded_into_adaptive_manager")
     tm2.load_time_information(tmp / "times" / "times.json")
     mon.count("time_information_round_trips")
     ok = (len(tm2.exported_times) == n and len(tm2.exported_dt) == n
